@@ -2,7 +2,8 @@
 //! operands, one ndjson event per public call, operands as two 16-bit limbs.
 //! usage: record_serial <out.ndjson> <seed> <max-events> [--pairs <file>]
 //!
-//! With `--pairs <file>` (lines "cmp <a> <b>" / "add <a> <n>" / "bump <a> 0", decimal u32)
+//! With `--pairs <file>` (lines "cmp <a> <b>" / "add <a> <n>" / "bump <a> 0" /
+//! "place <ts> <r> <era>", decimal u32)
 //! the given calls are performed and recorded instead of generated ones: used
 //! to put sweep disagreements before TLC and to re-confirm a rejected event
 //! in isolation.
@@ -65,6 +66,16 @@ fn bump_ev(w: &mut TraceWriter, rt: &tokio::runtime::Runtime, cur: u32) -> u32 {
     next
 }
 
+/// Timestamp::to_system_time for the serial `cur` and the reference time
+/// era * 2^32 + r
+fn place_ev(w: &mut TraceWriter, cur: u32, era: u32, r: u32) {
+    let t = match lib_place(cur, ((era as u64) << 32) + r as u64) {
+        Some(t) => json!({"era": t >> 32, "v": limbs(t as u32)}),
+        None => json!({"era": -1, "v": [0, 0]}),
+    };
+    w.event(json!({"ev": "place", "era": era, "r": limbs(r), "t": t}));
+}
+
 fn add_ev(w: &mut TraceWriter, cur: u32, n: u32) -> Option<u32> {
     let lib = lib_add(cur, n);
     let res = |r: Option<u32>| match r {
@@ -106,6 +117,8 @@ fn main() {
                     "bump" => {
                         bump_ev(&mut w, &rt, a);
                     }
+                    // "place <ts> <r> <era>"
+                    "place" => place_ev(&mut w, a, nums.next().unwrap_or(0), b),
                     _ => {}
                 }
             }
@@ -124,6 +137,25 @@ fn main() {
                 set_ev(&mut w, cur);
             }
             cur = bump_ev(&mut w, &rt, cur);
+            continue;
+        }
+        // a signature time placed next to a reference time in era 0, 1 or 2,
+        // on both sides of the half-cycle point and of the era boundaries
+        if rng.chance(1, 8) {
+            let era = rng.below(3) as u32;
+            let small = rng.below(5) as u32;
+            let r = match rng.below(8) {
+                0 => *rng.pick(&[0u32, 1, H - 1, H, H + 1, 0xFFFF_FFFF, 0xFFFF_FFFE]),
+                1 => cur.wrapping_add(H).wrapping_add(small).wrapping_sub(2),
+                2 => cur.wrapping_add(small).wrapping_sub(2),
+                3 => cur.wrapping_add(rng.below(1 << 20) as u32),
+                4 => cur.wrapping_sub(rng.below(1 << 20) as u32),
+                5 => cur.wrapping_add(H).wrapping_add(rng.below(1 << 17) as u32)
+                    .wrapping_sub(1 << 16),
+                6 => boundary(&mut rng),
+                _ => any(&mut rng),
+            };
+            place_ev(&mut w, cur, era, r);
             continue;
         }
         match rng.below(10) {
